@@ -413,6 +413,56 @@ def check_payload_builder(ctx, g):
                'the %s payload is wrong: %s' % (
                    'form' if is_form else 'json', detail or U(used)[:80]))
     ctx.floor('C16.PAYLOAD', n, 2, 'payload encodings')
+    # the complete target: the only values replaced on the copy are bare
+    # object() sentinels (`type(v) is object`) - a test by isinstance cannot
+    # single those out (everything is an instance of object; a white list
+    # of JSON types blanks what the serializer can carry: dates, UUIDs,
+    # Decimals, sets)
+    seen_b = set()
+    for p in t.paths:
+        for ev in p.events:
+            if not (ev.kind == 'store' and isinstance(
+                    ev.node, ast.Subscript)):
+                continue
+            base = t.expand(ev.node.value)
+            if not (isinstance(base, ast.Call) and U(
+                    base.func) == 'copy.deepcopy'):
+                continue
+            guards = [c for c in p.conds[:ev.nconds] if c.kind == 'test'
+                      and c.pol and ('type(' in U(t.expand(c.expr))
+                                     or 'isinstance(' in U(t.expand(c.expr))
+                                     or '__class__' in U(t.expand(c.expr)))]
+            neg = [c for c in p.conds[:ev.nconds] if c.kind == 'test'
+                   and not c.pol and 'isinstance(' in U(t.expand(c.expr))]
+            exact = any(U(t.expand(c.expr)).replace(' ', '') .endswith(
+                ('isobject', '==object')) and 'isinstance' not in U(
+                    t.expand(c.expr)) for c in guards)
+            by_inst = neg or any('isinstance(' in U(t.expand(c.expr))
+                                 for c in guards)
+            key = (ev.line, exact, bool(by_inst))
+            if key in seen_b:
+                continue
+            seen_b.add(key)
+            if exact:
+                ctx.ob('C16.PAYLOAD', True, '%s:%d' % (
+                    W.split(':')[0], ev.line), g.qual,
+                    'blanked on the copy: bare object() values',
+                    'only sentinels that no encoder can carry are replaced')
+            elif by_inst:
+                ctx.ob('C16.PAYLOAD', False, '%s:%d' % (
+                    W.split(':')[0], ev.line), g.qual,
+                    'blanked on the copy: %s' % U(t.expand(
+                        (neg or guards)[0].expr))[:60],
+                    'target values are replaced by {} on an isinstance '
+                    'test: values the form encoder serialises (dates, '
+                    'UUIDs, Decimals, sets, bytes) no longer reach the '
+                    'remote server - the request does not carry the '
+                    'complete target')
+            else:
+                raise AnalysisError(
+                    'the payload builder replaces target values on the copy '
+                    'under a condition the analysis does not read (line %d)'
+                    % ev.line)
 
 
 def check_target_ro(ctx, fns):
